@@ -609,6 +609,12 @@ func (c *diskCache) get(ctx context.Context, kind cache.EntryKind, hash string, 
 		return nil, -1, badReqErr("Invalid hash size: %d, expected: %d", len(hash), sha256.Size)
 	}
 
+	if size < -1 {
+		// -1 means "unknown", other negative sizes are invalid. They must not
+		// reach the blob header check, where a mismatch looks like corruption.
+		return nil, -1, badReqErr("Invalid (negative) size: %d", size)
+	}
+
 	if kind == cache.CAS && size <= 0 && hash == emptySha256 {
 		if zstd {
 			return io.NopCloser(bytes.NewReader(emptyZstdBlob)), 0, nil
